@@ -70,12 +70,14 @@ NasCfgUpdate(ch) ==
 \* PDU SESSION ESTABLISHMENT ACCEPT (8.3.2) with an IPv4 PDU address; ies = the set of optional IEIs to include besides the
 \* PDU address (89 5GSM cause, 86 RQ timer, 34 S-NSSAI, 128 always-on indication, 117 mapped EPS bearer contexts, 120 EAP message,
 \* 121 authorized QoS flow descriptions, 123 extended PCO, 37 DNN); the encoder puts them in table order
+\* a choice of the SMF when the scenario names it, else the usual value
+Pick(ch, f, dflt) == IF f \in DOMAIN ch THEN ch[f] ELSE dflt
 NasPduAcceptIes(ch, psi, pti, ies) ==
    Mk5GSM("PDUSessionEstablishmentAccept", psi, pti,
-          << <<17>>, ch.qosRules, <<6, 0, 1, 6, 0, 1>> >>,
-          Opts(<< OptIf(89 \in ies, 89, <<36>>),
+          << <<Pick(ch, "sel", 17)>>, ch.qosRules, Pick(ch, "ambr", <<6, 0, 1, 6, 0, 1>>) >>,
+          Opts(<< OptIf(89 \in ies, 89, <<Pick(ch, "cause", 36)>>),
                   [iei |-> 41, v |-> <<1>> \o ch.ip],
-                  OptIf(86 \in ies, 86, <<32>>),
+                  OptIf(86 \in ies, 86, <<Pick(ch, "rq", 32)>>),
                   OptIf(34 \in ies, 34, (IF Len(Cfg.sd) = 3 THEN <<Cfg.sst>> \o Cfg.sd ELSE <<Cfg.sst>>)),
                   OptIf(128 \in ies, 128, <<1>>),
                   OptIf(117 \in ies, 117, <<1, 5, 0, 3, 1, 2, 3>>),
